@@ -1699,6 +1699,16 @@ class MayRaise:
                     out |= self.call_summary(missing, q, ctx, e, recv=None)
                 return out
             init = self.m.find_method(q, "__init__")
+            if q == "sansldap.asn1.ASN1Reader" and e.args and isinstance(e.args[0], (ast.Name, ast.Attribute)):
+                # the reader wraps its argument in a memoryview: None is not a buffer
+                t0 = self.r.type_of(e.args[0], fi)
+                if t0[0] == "opt" or t0 == prim("none"):
+                    txt0 = norm(e.args[0])
+                    facts0 = self.facts(e, ctx)
+                    ok0 = ("NN", txt0) in facts0 or ("T", txt0) in facts0
+                    esc0 = self.site(ctx, e, "none-buffer", "TypeError", ok0, f"`{txt0}` may be None here and ASN1Reader needs a bytes-like object")
+                    if esc0:
+                        out.add(esc0)
             if init is not None and not c.is_dataclass:
                 out |= self.call_summary(init, q, ctx, e, recv=None)
             post = self.m.find_method(q, "__post_init__")
